@@ -118,6 +118,13 @@ CHECKS = {
         "Trusted: refimpl::analyses and Earley. Exact on reduced grammars, bracketed by the two readings of the definitions otherwise. Termination = answer within a watchdog re-confirmed 10x in a fresh process.",
         "DESIGN.md section 5, C17",
     ),
+    "C18": (
+        "stateful property-based testing: generated build histories interpreted against the real compile-time builders (one process per build, logical file times), invariant checked after every build against a clean build",
+        "exploration",
+        "Histories over {edit grammar, edit lexer, touch, change one of 12 builder options, break grammar (4 ways), break lexer, build}: after every build the generated modules equal a clean build's, regenerated() is false iff nothing changed, true after a grammar/option change, and a failed build leaves no generated file behind.",
+        "Trusted: the ctstep child process harness and the logical clock (filetime). A Touch may or may not regenerate.",
+        "DESIGN.md section 5, C18",
+    ),
     "C19": (
         "property-based testing (proptest choice streams, shrinking) against a naive line/column reference model",
         "exploration",
